@@ -229,11 +229,15 @@ RandomAccessIterator partition(RandomAccessIterator first,
   typedef partition_helper<RandomAccessIterator, Predicate> P;
   typename P::partition_helper_state s(first, last, pred);
   on_each(P(&s));
-  if (s.rfirst == first && s.rlast == last) { // perfect !
-    // abort();
-    return s.first;
-  }
-  return std::partition(s.rfirst, s.rlast, pred);
+  // All blocks have been claimed: s.first == s.last is the point where the
+  // blocks taken from the low end meet those taken from the high end. Outside
+  // the leftover spans every element below that point satisfies pred and no
+  // element above it does, so the serial clean-up has to cover the leftovers
+  // *and* reach the meeting point (an empty range there when nothing was left
+  // over).
+  RandomAccessIterator lo = std::min(s.rfirst, s.first);
+  RandomAccessIterator hi = std::max(s.rlast, s.first);
+  return std::partition(lo, hi, pred);
 }
 
 struct pair_dist {
